@@ -3,6 +3,7 @@
 from __future__ import annotations
 
 import itertools
+import os
 from collections import Counter
 
 from hypothesis import strategies as st
@@ -69,6 +70,7 @@ def strategy(tier: str):
             "fault_class": st.sampled_from(("failed", "failed", "base", "read")),
             "reconnect": st.booleans(),
             "between": st.one_of(st.just([]), st.lists(st.sampled_from(BETWEEN), min_size=1, max_size=2)),
+            "wake_payloads": st.one_of(st.just(["5"]), st.lists(st.sampled_from(("0", "1", "5", "7", "100", "65535", "500", "3")), min_size=1, max_size=4)),
         }
     )
 
@@ -82,6 +84,19 @@ def enumerate_cases(tier: str):
         for parked in (1, 2) if tier == "quick" else (1, 2, 3):
             for senders in ([[0, True]], [[1, True]], [[0, True], [0, True]], [[3, True]]):
                 yield {"kind": "race", "config": {"version": version, "parked": parked, "other_parked": 0, "senders": senders, "faults": 1}}
+    # the counter carried by the wake line grows, shrinks, repeats or restarts between the failed flush and the retry
+    for version in ("2.0", "2.1", "2.2"):
+        for payloads in (["100", "7"], ["7", "100"], ["5", "5"], ["100", "7", "8", "3"], ["0", "65535", "0"], ["500", "1"]):
+            for faults in ([0], [1], [0, 2]):
+                yield {"version": version, "parked": [[1, 0, 0, "v0"], [1, 1, 0, "v1"], [2, 0, 0, "v2"]], "wakes": [1, 1], "faults": faults, "fault_class": "failed", "wake_payloads": payloads}
+    # the link dies (ETIMEDOUT, EPIPE, reset...) while the k-th command of a flush is being written; reconnect, wake again
+    import errno as _errno
+
+    for version in ("2.0", "2.2"):
+        for parked in (1, 2, 3):
+            for die_at in range(parked):
+                for exc in ("ETIMEDOUT", "EPIPE", "ECONNRESET", "EIO", "EHOSTUNREACH"):
+                    yield {"kind": "memstream", "version": version, "parked": parked, "die_at": die_at, "exc": exc}
     # a failed flush, then one event of every kind, then the retry: what was not written is still owed
     for version in ("2.0", "2.2") if tier == "quick" else ("2.0", "2.1", "2.2"):
         for line in BETWEEN:
@@ -225,7 +240,114 @@ async def _app_event(name: str, gateway, parked: list, info: dict) -> Outcome | 
     return None
 
 
+def _run_memstream(case: dict) -> Outcome:
+    """Real asyncio stream objects over an in-memory transport whose link dies with an OS error while the k-th parked command
+    is being written; after a reconnect and more wakes the device must have every command exactly once."""
+    import asyncio
+    import errno
+
+    from aiomysensors.gateway import Gateway
+    from aiomysensors.transport import StreamTransport
+
+    version = case["version"]
+    wake = f"1;255;3;0;{32 if version == '2.2' else 22};5\n".encode()
+    keys = ((0, 0), (1, 0), (0, 2))[: case["parked"]]
+    lines = [f"1;{c};1;0;{t};v{i}\n" for i, (c, t) in enumerate(keys)]
+    code = getattr(errno, case["exc"])
+    exc = TimeoutError(code, os.strerror(code)) if case["exc"] == "ETIMEDOUT" else OSError(code, os.strerror(code))
+
+    class DyingMem(env.MemTransport):
+        def __init__(self) -> None:
+            super().__init__()
+            self.die_at: int | None = None
+            self.count = 0
+
+        def write(self, data) -> None:
+            if self.die_at is not None and self.count == self.die_at and not self.closing:
+                # the link is gone before these bytes leave: nothing of this write reaches the device
+                self.closing = True
+                self.protocol.connection_lost(exc)
+                return
+            self.count += 1
+            super().write(data)
+
+    class MemStream(StreamTransport):
+        def __init__(self) -> None:
+            super().__init__()
+            self.mems: list = []
+
+        async def _open_connection(self):
+            loop = asyncio.get_running_loop()
+            reader = asyncio.StreamReader(limit=65536, loop=loop)
+            protocol = asyncio.StreamReaderProtocol(reader, loop=loop)
+            mem = DyingMem()
+            mem.protocol = protocol
+            protocol.connection_made(mem)
+            self.mems.append((reader, mem))
+            return reader, asyncio.StreamWriter(mem, protocol, reader, loop)
+
+    async def go() -> Outcome | None:
+        transport = MemStream()
+        gateway = Gateway(transport)
+        gateway.protocol_version = version
+        env.install_registry(gateway.nodes, REGISTRY)
+        await transport.connect()
+        for i, (c, t) in enumerate(keys):
+            await gateway.send(env.mk_message([1, c, 1, 0, t, f"v{i}"]))
+        reader, mem = transport.mems[0]
+        if mem.data:
+            return Outcome(ok=True, classes=("diverged-elsewhere",))
+        mem.die_at = case["die_at"]
+        reader.feed_data(wake)
+        agen = gateway.listen()
+        try:
+            await agen.__anext__()
+            first = "ok"
+        except TransportError:
+            first = "transport-error"
+        except Exception as err:  # noqa: BLE001
+            return fail(f"leak:{env.exc_sig(err)}", f"link died with {exc!r} during the flush: {err!r}")
+        finally:
+            await agen.aclose()
+        if first == "ok":
+            return fail("memstream:fault-not-reported", f"the link died with {exc!r} while command {case['die_at']} was being written, but listen returned normally")
+        try:
+            await transport.disconnect()
+            await transport.connect()
+        except Exception as err:  # noqa: BLE001
+            return fail(f"memstream:reconnect-raises:{type(err).__name__}", f"{err!r}")
+        reader2, mem2 = transport.mems[-1]
+        for _ in range(3):
+            reader2.feed_data(wake)
+            agen = gateway.listen()
+            try:
+                await agen.__anext__()
+            except Exception as err:  # noqa: BLE001
+                return fail("memstream:wake-after-reconnect-raised", f"after the reconnect the wake raised {err!r}")
+            finally:
+                await agen.aclose()
+        got = (bytes(mem.data) + bytes(mem2.data)).decode().splitlines(keepends=True)
+        for line in lines:
+            if got.count(line) == 0:
+                return fail("memstream:command-lost", f"link died with {exc!r} at write {case['die_at']}; after reconnect and three wakes the device received {got!r}, never {line!r}")
+            if got.count(line) > 1:
+                return fail("memstream:command-repeated", f"the device received {line!r} {got.count(line)} times: {got!r}")
+        await transport.disconnect()
+        return None
+
+    bad = env.run(go())
+    classes = ("memstream-kind", f"version={version}", f"exc={case['exc']}")
+    if bad is not None:
+        if bad.ok:
+            return bad
+        bad.classes = classes
+        return bad
+    return Outcome(ok=True, nontrivial=True, classes=classes)
+
+
 def run_case(case: dict) -> Outcome:
+    if case.get("kind") == "memstream":
+        return _run_memstream(case)
     if case.get("kind") == "race":
         return _run_race(case)
     if case.get("kind") == "stream":
@@ -262,7 +384,8 @@ def run_case(case: dict) -> Outcome:
             pending = [l for l, owner in lines.items() if owner == node and written[l] == 0]
             before_attempts = len(transport.attempts)
             wake_now = 32 if gateway.protocol.VERSION == "2.2" else 22  # (a version report may have arrived in between)
-            status, value = await env.rx(gateway, f"{node};255;3;0;{wake_now};5\n")
+            payloads = case.get("wake_payloads") or ["5"]
+            status, value = await env.rx(gateway, f"{node};255;3;0;{wake_now};{payloads[idx % len(payloads)]}\n")  # (counters may grow, shrink or repeat)
             step_attempts = transport.attempts[before_attempts:]
             where = f"wake #{idx} of node {node} (faults at attempts {case['faults']})"
             if status == "leak":
